@@ -33,6 +33,7 @@ type Runner struct {
 	root    string // scratch root
 	main    side
 	bak     side
+	dmg     side // a damaged copy of the main directory (C14)
 	bakN    int
 	lastMsg []klevdb.Message // last published batch (with effective times)
 }
@@ -51,6 +52,10 @@ func (r *Runner) Reset() {
 	if r.bak.log != nil {
 		_ = r.bak.log.Close()
 		r.bak.log = nil
+	}
+	if r.dmg.log != nil {
+		_ = r.dmg.log.Close()
+		r.dmg.log = nil
 	}
 	_ = os.RemoveAll(r.root)
 	_ = os.MkdirAll(r.root, 0700)
@@ -275,6 +280,9 @@ func (r *Runner) Exec(line string) (lhs string, res string) {
 	op := toks[0]
 	if strings.HasPrefix(op, "b.") {
 		sd = &r.bak
+		op = op[2:]
+	} else if strings.HasPrefix(op, "d.") {
+		sd = &r.dmg
 		op = op[2:]
 	}
 	args := toks[1:]
